@@ -7,9 +7,22 @@ baton scheduler of mc/simos.py) against the simulated file system, record
 locks, bpf pin namespace and interface.  Every simulated OS / bpf / netlink
 call is a scheduling point; the explorer enumerates the interleavings (complete
 or preemption bounded), the answers of ``randrange`` (tiny domains: collisions
-forced) and optionally one crash, and checks the four invariants of the
-property statement at every reached state.
+forced), optionally one crash and optionally one injected failure of
+``connect()``, and checks the five invariants at every reached state.
+
+Starts that fail are part of the spaces: a joiner's ``sleep`` between its two
+``obj_get`` attempts is a scheduling point that advances nothing, so the
+installer may still not have pinned afterwards and the joiner gives up
+(FileNotFoundError, a legal outcome); in the ``fault`` spaces the explorer may
+let one ``connect()`` per execution raise OSError (installer or joiner).  The
+other participants - among them one that starts after the failure (third
+process, or the second session of a restarting one) - must not notice:
+invariants 1-4 as always, and invariant 5 looks at the simulated file system:
+the ethertype lock file of every running participant is still in the lock
+directory (a participant whose start failed removed nothing but what it created
+itself).
 """
+import errno as _errno
 import os as _os
 
 from mc import core, simos
@@ -19,9 +32,12 @@ LEVEL = "model_checking"
 RULE = ("explicit-state search with replay over all interleavings of the "
         "simulated OS/bpf/netlink operations of 2-3 processes running the "
         "real ParallelEtherCat.run / FMMULock code (complete, or bounded by "
-        "preemptions), x randrange answers x optional crash; a state is "
-        "non-trivial when a participant is inside its `async with` body "
-        "(or holds an FMMU window) while another process is still alive")
+        "preemptions), x randrange answers x optional crash x optional "
+        "injected connect() failure (at most one per execution); starts may "
+        "fail (joiner gives up after its sleep, connect() raises) and a "
+        "further participant starts afterwards; a state is non-trivial when "
+        "a participant is inside its `async with` body (or holds an FMMU "
+        "window) while another process is still alive")
 
 import ebpfcat.ebpfcat as ec_mod      # noqa: E402
 import ebpfcat.ethercat as eth_mod    # noqa: E402
@@ -72,7 +88,17 @@ class StubXDP:
         self.file_descriptor = None
 
 
+CONNECT_ERRNO = _errno.ENOBUFS
+
+
 async def _connect(self):
+    """EtherCat.connect: no socket.  In a space with `faults` > 0 the explorer
+    decides, as long as the execution has a fault left, whether this call
+    fails (OSError, as socket() / bind() would raise it)"""
+    rt = simos.current()
+    if getattr(rt, "faults_left", 0) > 0 and rt.choose("connect", [0, 1]):
+        rt.faults_left -= 1
+        raise OSError(CONNECT_ERRNO, "injected fault: connect() failed")
     self.send_queue = None
 
 
@@ -119,16 +145,22 @@ def body_full(rt):
         async with ec.run():
             addr = ec.get_fmmu_addr()
             rt.flag("running", (ec.ethertype, ec.programs, addr >> 22))
-            rt.syscall("work", (), lambda: None)
-            rt.flag("running", None)
+            try:
+                rt.syscall("work", (), lambda: None)
+            finally:
+                rt.flag("running", None)
         return [ec.ethertype, addr >> 22]
     return simos.drive(main())
 
 
 def body_restart(rt):
     """the same program run twice in a row (second process = new session
-    after the first one exited)"""
-    first = body_full(rt)
+    after the first one exited, also when the first one's start failed)"""
+    try:
+        first = body_full(rt)
+    except Exception as e:       # what the library raised: session over
+        first = ["start failed", type(e).__name__, getattr(e, "errno", None),
+                 str(e)[:60]]
     rt.restart_process()
     return [first, body_full(rt)]
 
@@ -331,6 +363,25 @@ def _kf_fmmu(log):
     return None
 
 
+def _remover(run, path):
+    """text: which operation of which process made `path` vanish last"""
+    last = None
+    for ev in run.log:
+        if _ok(ev) and ((ev[2] == "remove" and ev[3][0] == path)
+                        or (ev[2] == "rmtree" and ev[3][0] == LOCKDIR)):
+            last = ev
+    if last is None:
+        return ""
+    started = False           # within the remover's current session
+    for st, n, _, _ in run.procs[last[1]].events:
+        if st > last[0]:
+            break
+        started = (started or n == "work") and n != "exit"
+    return (f": removed at step {last[0]} by {last[2]}({last[3][0]}) of "
+            f"process {last[1]}, " + ("which had been running" if started else
+                                      "whose start failed / which never ran"))
+
+
 def monitor(run):
     w, out = run.world, []
     running = [(p.pid, p.flags["running"]) for p in run.procs
@@ -384,6 +435,20 @@ def monitor(run):
                     "ethertype", who=[p, q], expected="distinct ethertypes",
                     observed=f"participants {p} and {q} both use "
                              f"{fp[0]:#x}"))
+    # (5) nobody - in particular no participant whose start failed - removed
+    # what a running participant created: its ethertype lock file is there
+    for pid, (eth, tfd, slot) in running:
+        path = f"{LOCKDIR}/{eth}.lock"
+        if not w.exists(pid, path):
+            by = _remover(run, path)
+            out.append(dict(
+                inv=5, kind="the ethertype lock file of a running "
+                "participant is gone", who=[pid],
+                expected="the lock directory entry of every running "
+                "participant exists (a participant whose start failed removes "
+                "nothing but what it created itself)",
+                observed=f"participant {pid} is running with ethertype "
+                         f"{eth:#x}, {path} does not exist" + by))
     # (4) disjoint logical address windows
     slots = [(pid, f[2]) for pid, f in running] + holding
     for i, (p, sp) in enumerate(slots):
@@ -407,20 +472,25 @@ def describe(run):
 
 # -------------------------------------------------------------------- spaces
 def make_space(name, kind, n, preempt, crashes, seed, cap=None, neth=2,
-               nslot=3):
+               nslot=3, faults=0):
     dom = domains(seed)
     dom = dict(eth=dom["eth"][:neth], slot=dom["slot"][:nslot])
     params = dict(kind=kind, n=n, preempt=preempt, crashes=crashes,
                   seed=seed, neth=neth, nslot=nslot, eth=dom["eth"],
-                  slot=dom["slot"])
+                  slot=dom["slot"], faults=faults)
 
     def factory():
         if kind == "restart":     # process 0 restarts once, the others not
-            return simos.Run(simos.World(DIRS),
-                             [body_restart] + [body_full] * (n - 1),
-                             params=dom)
-        return simos.Run(simos.World(DIRS), [BODIES[kind]] * n, params=dom,
-                         symmetric=True)
+            run = simos.Run(simos.World(DIRS),
+                            [body_restart] + [body_full] * (n - 1),
+                            params=dom)
+        else:
+            run = simos.Run(simos.World(DIRS), [BODIES[kind]] * n,
+                            params=dom, symmetric=True)
+        # connect() faults this execution may still inject (see _connect);
+        # a function of the processes' histories, so it is part of the key
+        run.faults_left = faults
+        return run
     return simos.Space(name, factory, monitor, preempt=preempt,
                        crashes=crashes, params=params, describe=describe,
                        state_cap=cap)
@@ -429,15 +499,20 @@ def make_space(name, kind, n, preempt, crashes, seed, cap=None, neth=2,
 def space_from_params(name, p):
     return make_space(name, p["kind"], p["n"], p["preempt"], p["crashes"],
                       p["seed"], neth=p.get("neth", 2),
-                      nslot=p.get("nslot", 3))
+                      nslot=p.get("nslot", 3), faults=p.get("faults", 0))
 
 
 def spaces(ctx):
     s = ctx.seed
     if ctx.quick:
-        sp = [make_space("full-2p-preempt2", "full", 2, 2, 0, s),
+        sp = [make_space("full-2p-preempt2-fault1", "full", 2, 2, 0, s,
+                         faults=1),
               make_space("restart-2p-preempt2-small", "restart", 2, 2, 0, s,
                          neth=1, nslot=2),
+              # installer, a joiner whose start fails, a third one that
+              # starts afterwards (and every other order of the three)
+              make_space("full-3p-preempt1-fault1-small", "full", 3, 1, 0, s,
+                         neth=1, nslot=2, faults=1),
               make_space("fmmu-2p-complete", "fmmu", 2, None, 0, s),
               make_space("fmmu-3p-complete-2slots", "fmmu", 3, None, 0, s,
                          nslot=2)]
@@ -459,6 +534,19 @@ def spaces(ctx):
     if only:
         sp = [x for x in sp if x.name in only.split(",")]
     return sp
+
+
+def _failed_starts(sp, r):
+    """how many distinct terminal outcomes of the space contain a joiner that
+    gave up / an injected connect() failure (reported in the evidence; no
+    verdict depends on it, the code under test decides what it raises)"""
+    if sp.params["kind"] == "fmmu":
+        return {}
+    return dict(
+        outcomes_joiner_gave_up=sum(
+            1 for o in r.outcomes if "FileNotFoundError" in o),
+        outcomes_connect_failed=sum(
+            1 for o in r.outcomes if "injected fault" in o))
 
 
 def selftest():
@@ -483,8 +571,11 @@ def run(ctx):
             if a["digest"] != b["digest"]:
                 raise core.Internal(f"{sp.name}: initial state is not "
                                     "deterministic")
-            st = simos.explore(ctx, sp, res)
-            st["confirmed_replays"] = simos.confirm(sp, res)
+            r = core.Result()
+            st = simos.explore(ctx, sp, r)
+            st["confirmed_replays"] = simos.confirm(sp, r)
+            st.update(_failed_starts(sp, r))
+            res.merge(r)
             per[sp.name] = st
             res.cov["states"] += st["states"]
             res.cov["transitions"] += st["transitions"]
@@ -496,7 +587,9 @@ def run(ctx):
                 processes=sp.params["n"], protocol=sp.params["kind"],
                 preemptions=("unbounded (all interleavings)"
                              if sp.preempt is None else sp.preempt),
-                crashes=sp.crashes, ethertypes=len(sp.params["eth"]),
+                crashes=sp.crashes,
+                connect_failures=sp.params.get("faults", 0),
+                ethertypes=len(sp.params["eth"]),
                 slots=len(sp.params["slot"]),
                 completed=per[sp.name]["complete"])
             for sp in spaces(ctx)}
@@ -512,6 +605,20 @@ def run(ctx):
         "participant whose run() raises (e.g. FileNotFoundError because the "
         "installer has not pinned the table yet) simply never runs - the "
         "statement does not promise that starting succeeds",
+        "a failing start is nevertheless a start 'in any interleaving': the "
+        "invariants keep holding for the others while and after it fails.  "
+        "Failing starts of the spaces: the joiner that gives up (the sleep "
+        "between its two obj_get attempts advances nothing, the installer "
+        "may still not have pinned afterwards) and, in the spaces named "
+        "fault1, at most one connect() per execution that raises "
+        f"OSError({_errno.errorcode[CONNECT_ERRNO]}) where socket()/bind() "
+        "would (installer or joiner, chosen by the explorer)",
+        "invariant 5 (a participant whose start failed removed nothing but "
+        "what it created itself) is judged on the simulated file system and "
+        "only for what the statement protects: the ethertype lock file "
+        "<lockdir>/<ethertype>.lock of every RUNNING participant exists; "
+        "lock files of participants that are still starting (not running) "
+        "may vanish with a failing installer's directory",
         "invariant 4 compares the windows of participants that hold them at "
         "the same time (both running); re-use of a window after its owner "
         "released it is allowed",
@@ -527,7 +634,8 @@ def run(ctx):
         "processes are one state; os.getpid() (only written into the lock "
         "files, never read) returns the same number for all of them",
         "'restart' spaces: process 0 runs the program twice in a row (exit, "
-        "then a new session), which gives three sessions on two threads",
+        "then a new session, also when the start of the first one failed), "
+        "which gives three sessions on two threads",
         "sockets / EtherCat.connect and the eBPF code generation of the "
         "dispatcher are stubbed (EtherXDP -> load/close/_netlink on the "
         "simulated bpf + interface; the real XDP.attach / XDP.detach run)",
